@@ -185,7 +185,7 @@ def register(ck, bft, N):
     tag = f"{'bft' if bft else 'normal'}[n={N}]"
     src = Src()
     R = build(ck, bft, N, src)
-    rp = harness.make_replayer(ck, "close_group_validator", "validate_membership", lambda s, obs: build(ck, bft, N, s, obs)["goals"], params)
+    rp = harness.make_replayer(ck, "close_group_validator", "validate_membership", lambda s, obs: build(ck, bft, N, s, obs), params)
     ck.register_src("validate_membership", params, src)
     for g, f in R["goals"].items():
         ck.prove(f"{tag}/{g}", R["eng"], R["hyps"], f, on_sat=rp, meta={"goal": g, "fp_lemmas": g.startswith("monotone/") or g.startswith("complete/")})
